@@ -160,6 +160,57 @@ def make_call_handler(lib, priv, arity, reports_for):
     return handler
 
 
+def confirm_on_skeleton(lib, f, sig, p1, entry, handler, retdef_, pboff):
+    """(addresses of instructions reported on some concrete path, number of paths replayed)"""
+    import lenrun
+    lens = list(range(1, 81)) + [16 * k + r for k in (5, 7, 8, 9, 12, 15, 16, 17, 24, 31, 32, 33, 40, 47, 48, 49, 50, 64, 65) for r in (0, 1, 15)]
+    if "cbc" in f.name.lower():
+        lens = list(range(16, 641, 16))
+    elif "XTS" in f.name:
+        lens = list(range(16, 300))
+    pbs = (0, 8) if "_update_" in f.name else (0,)
+    # the other scalar arguments select paths too (a 12-byte AAD and the tag lengths have their own code)
+    combos = [(L_, 20, 16) for L_ in lens]
+    if "gcm" in f.name:
+        combos += [(L_, A_, T_) for L_ in (1, 16, 100) for A_ in (0, 1, 12, 16, 33) for T_ in (8, 12, 16)]
+    ARG = ["RDI", "RSI", "RDX", "RCX", "R8", "R9"]
+    ok = set()
+    npaths = 0
+    for PB in pbs:
+        for (L, AAD_, TAG_) in combos:
+            e_ = {}
+            sargs = {}
+            for k, sg in enumerate(sig):
+                if sg is None:
+                    continue
+                nm = sg[0] or ("arg%d" % k)
+                isptr = "*" in (sg[2] or "")
+                v = ("p", nm, 0) if isptr else (L if nm in ("len", "len_bytes", "N") else TAG_ if nm == "auth_tag_len" else AAD_ if nm == "aad_len" else None)
+                if k < 6:
+                    e_[ARG[k]] = v
+                else:
+                    sargs[8 + 8 * (k - 6)] = v
+
+            def hook(i, a, size, _pb=PB):
+                if a[0] == "p" and a[1] == "sp" and a[2] in sargs and size == 8:
+                    return sargs[a[2]]
+                if a[0] == "p" and a[1] == "context_data" and a[2] == pboff and size == 8:
+                    return _pb
+                return None
+            m = lenrun.Machine(lib, f, e_, mem_hook=hook)
+            m.record_paths = True
+            rr = m.run()
+            for path in getattr(rr, "paths", []) or []:
+                npaths += 1
+                di = defined.DefInterp(lib, f, p1, entry, handler, ret_defined=retdef_)
+                st = di.copy(entry)
+                for b in path:
+                    di.block(b, st, True)
+                for (i, kind, what) in di.res.reports:
+                    ok.add(i.addr)
+    return ok, npaths
+
+
 def worker(lib, objname, extra):
     priv, arity, retdef = extra["priv"], extra["arity"], extra["retdef"]
     o = lib.by_name[objname]
@@ -194,6 +245,17 @@ def worker(lib, objname, extra):
         out["sinks"] += r.sinks_checked
         for b in r.broken:
             out["broken"].append(b)
+        sigs = extra.get("aes_sig") or {}
+        if r.reports and name in sigs:
+            # The fixpoint joins paths.  For the AES bodies (whose control flow is decided by the length alone) a report
+            # is kept only if it is reproduced on a concrete path: the length skeleton supplies the block sequence each
+            # length of a dense grid selects, and the same transfer functions run along it without joins.
+            okaddrs, npaths = confirm_on_skeleton(lib, f, sigs[name], p1, entry, h, retdef.get(name, False), extra.get("pblock_off", 80))
+            out["skeleton_paths"] = out.get("skeleton_paths", 0) + npaths
+            if npaths:
+                before = len(r.reports)
+                r.reports = [x for x in r.reports if x[0].addr in okaddrs]
+                out["unconfirmed"] = out.get("unconfirmed", 0) + (before - len(r.reports))
         seen = set()
         for (i, kind, what) in r.reports:
             k2 = (kind, what if kind in ("address", "mask", "call-argument", "return-value") else i.addr)
@@ -252,7 +314,21 @@ def run(chk):
             except c12.Unmodelled:
                 pass
     priv = c19.private_funcs(lib)
-    res = par.map_objects(lib, worker, [o.name for o in lib.objs], extra={"priv": priv, "arity": arity, "retdef": retdef})
+    aes_sig = {}
+    try:
+        import cands as _cands
+        amods = ir.load_modules([u for u in units if u["kind"] == "c" and u["src"].startswith("aes/")])
+
+        class _Q(object):
+            notes = []
+
+            def broke(self, m):
+                pass
+        ac, _nd = _cands.candidates(_Q(), lib, amods, "aes/", ["_aes_cbc_", "_XTS_AES", "_aes_gcm_"])
+        aes_sig = {k: v[1] for k, v in ac.items()}
+    except Exception:
+        aes_sig = {}
+    res = par.map_objects(lib, worker, [o.name for o in lib.objs], extra={"priv": priv, "arity": arity, "retdef": retdef, "aes_sig": aes_sig})
     tot = collections.Counter()
     import json, os
     with open(os.path.join(build.VERIF, "tables", "c20_infeasible.json")) as fh:
